@@ -43,7 +43,7 @@ def Val.truthy : Val → Bool
 
 inductive UnOp | lnot | bnot | neg
   deriving DecidableEq, Repr
-inductive BinOp | add | sub | band | bor | bxor | shl | shr | eq | ne | lt | le | gt | ge | land | lor
+inductive BinOp | add | sub | band | bor | bxor | shl | shr | eq | ne | lt | le | gt | ge | land | lor | mul | div | mod
   deriving DecidableEq, Repr
 
 inductive Expr
@@ -114,6 +114,9 @@ def boolV (b : Bool) : Val := .int (if b then 1 else 0)
 def evalBin : BinOp → Val → Val → Except String Val
   | .add, .int a, .int b => .ok (.int (a + b))
   | .sub, .int a, .int b => .ok (.int (a - b))
+  | .mul, .int a, .int b => .ok (.int (a * b))
+  | .div, .int a, .int b => if 0 ≤ a ∧ 0 < b then .ok (.int (a / b)) else .error "division: operand sign not in the subset"
+  | .mod, .int a, .int b => if 0 ≤ a ∧ 0 < b then .ok (.int (a % b)) else .error "modulo: operand sign not in the subset"
   | .band, .int a, .int b => if 0 ≤ a ∧ 0 ≤ b then .ok (.int (Int.ofNat (a.toNat &&& b.toNat))) else .error "band of a negative operand"
   | .bor, .int a, .int b => if 0 ≤ a ∧ 0 ≤ b then .ok (.int (Int.ofNat (a.toNat ||| b.toNat))) else .error "bor of a negative operand"
   | .bxor, .int a, .int b => if 0 ≤ a ∧ 0 ≤ b then .ok (.int (Int.ofNat (a.toNat ^^^ b.toNat))) else .error "bxor of a negative operand"
